@@ -606,15 +606,27 @@ func unliteralize(filename string, src []byte) ([]byte, int) {
 			}
 		}
 		if init != nil {
-			if call, lit := iifeOf(*init); call != nil && supported(lit) && len(pend) == 0 {
+			if call, lit, slot := iifeSlot(*init); call != nil && supported(lit) && len(pend) == 0 && guards[slot] == nil {
 				if as, isAssign := (*init).(*ast.AssignStmt); isAssign {
+					direct := len(as.Rhs) == 1 && slot == &as.Rhs[0]
+					if !direct && litResultCount(lit) != 1 {
+						return true
+					}
+					if direct && litResultCount(lit) != len(as.Lhs) {
+						return true
+					}
 					pre, results := build(lit, call)
 					for _, p := range pre {
 						c.InsertBefore(p)
 					}
-					as.Rhs = results
+					if direct {
+						as.Rhs = results
+					} else {
+						// the literal sits inside the right-hand side (an argument of the call that is assigned)
+						*slot = results[0]
+					}
 					n++
-				} else if _, isExpr := (*init).(*ast.ExprStmt); isExpr {
+				} else if es, isExpr := (*init).(*ast.ExprStmt); isExpr && slot == &es.X {
 					pre, _ := build(lit, call)
 					for _, p := range pre {
 						c.InsertBefore(p)
